@@ -250,7 +250,9 @@ def prelude_c(L, K, objsz_macro=True):
          'size_t w_api_length(const void*); int w_api_empty(const void*); char w_api_cstr_at(const void*, size_t);',
          'int cv_thrown;',
          '/* representation invariant (C10): length <= capacity and NUL at the length */',
-         '#define WF(p) (w_length(p) <= L && w_char_at(p, w_length(p)) == 0)',
+         '/* the last buffer byte is only ever written as terminator: part of the invariant (established by the member',
+         '   initialiser, preserved by every method -- checked as postcondition) so that pre-states are reachable ones */',
+         '#define WF(p) (w_length(p) <= L && w_char_at(p, w_length(p)) == 0 && w_char_at(p, L) == 0)',
          '#define GHOSTS size_t g_len' + ''.join(', char g%d' % i for i in range(L)),
          '#define GHOST_ARGS g_len' + ''.join(', g%d' % i for i in range(L)),
          '#define TIE(p) (w_length(p) == g_len' + ''.join(' && w_char_at(p,%d) == g%d' % (i, i) for i in range(L)) + ')',
